@@ -106,11 +106,12 @@ struct sim_allocator {
   template <class U>
   sim_allocator(const sim_allocator<U>& o) noexcept : id(o.id) {}
   T* allocate(size_t n) {
-    { usim::np_scope np; auto& s = alloc_stats(id); s.allocs++; s.bytes += (long)(n * sizeof(T)); }
-    return (T*)::operator new(n * sizeof(T));
+    T* p = (T*)::operator new(n * sizeof(T));  // (may throw under allocation-failure faults: count only what was served)
+    { usim::np_scope np; auto& s = alloc_stats(id); s.allocs++; s.bytes += (long)(n * sizeof(T)); KIT_TRACE("allocator %d: allocate %zu bytes", id, n * sizeof(T)); }
+    return p;
   }
   void deallocate(T* p, size_t n) noexcept {
-    { usim::np_scope np; auto& s = alloc_stats(id); s.deallocs++; s.bytes -= (long)(n * sizeof(T)); }
+    { usim::np_scope np; auto& s = alloc_stats(id); s.deallocs++; s.bytes -= (long)(n * sizeof(T)); KIT_TRACE("allocator %d: deallocate %zu bytes", id, n * sizeof(T)); }
     ::operator delete(p);
   }
   template <class U>
